@@ -197,5 +197,55 @@ func C10Scenarios(tier string) []*Scenario {
 			}
 		}
 	}
+	// source and target of ONE struct type, no field settings on the method: still a field-wise update under the
+	// zero-value settings (converter / command-line level), with and without skipCopySameType
+	for _, fk := range c10FieldKinds() {
+		if fk.name != "int" && fk.name != "nstruct" && fk.name != "slice" && fk.name != "string" && fk.name != "ptr" && fk.name != "map" {
+			continue
+		}
+		for _, mask := range []int{0, 1, 2, 4, 7} {
+			for _, level := range []string{"converter", "cli"} {
+				for _, skip := range []bool{false, true} {
+					for _, ptrSrc := range []bool{false, true} {
+						n++
+						out = append(out, buildC10Same(fmt.Sprintf("%05d", n), fk, mask, level, skip, ptrSrc))
+					}
+				}
+			}
+		}
+	}
 	return out
+}
+
+func buildC10Same(id string, fk fieldKind, mask int, level string, skip, ptrSrc bool) *Scenario {
+	u := space.StdUniverse()
+	sc := &Scenario{ID: "US" + id, PropGen: "C10", PropVal: "C10", Test: "Convert", Funcs: map[string]string{},
+		Desc: map[string]any{"class": fmt.Sprintf("same-type field=%s skip=%v ptrsrc=%v", fk.name, skip, ptrSrc), "zero_mask": mask, "level": level}}
+	sd := &space.Decl{Pkg: "in", Name: "SS" + id, Under: space.St(f("F", fk.src(u)), f("G", tInt), f("H", tStr))}
+	sc.Decls = []*space.Decl{sd}
+	conv := &model.Converter{OutPkg: "conv/generated", LitPkg: "conv"}
+	sc.Conv = conv
+	lines := zeroLines(mask)
+	if level == "converter" {
+		sc.ConvLines = append(sc.ConvLines, lines...)
+	} else {
+		sc.Global = append(sc.Global, lines...)
+	}
+	applyZero(&conv.Set, mask)
+	if skip {
+		sc.ConvLines = append(sc.ConvLines, "skipCopySameType")
+		conv.Set.SkipCopySameType = true
+	}
+	eff := conv.Set
+	sT := space.N(sd)
+	srcT := sT
+	if ptrSrc {
+		srcT = space.P(sT)
+	}
+	top := &model.Method{Name: "Convert", Src: srcT, Dst: space.P(sT), Set: eff, Fields: map[string]*model.FieldCfg{}, Update: true}
+	conv.Methods = []*model.Method{top}
+	sc.Methods = []*ScMethod{{Name: "Convert", Params: "source " + srcT.Go("conv") + ", target " + space.P(sT).Go("conv"), Result: "", Lines: []string{"update target"}, M: top}}
+	sc.SrcIdx, sc.TgtIdx = 0, 1
+	sc.Mode = "update"
+	return sc
 }
